@@ -55,6 +55,7 @@ func genScript(rt *rapid.T) Script {
 		s.Link = rapid.SampledFrom([]wire.Config{
 			{Kind: wire.InMem}, {Kind: wire.Pipe}, {Kind: wire.SSE},
 			{Kind: wire.Stateful}, {Kind: wire.Stateful, JSON: true}, {Kind: wire.Stateful, Store: true},
+			{Kind: wire.Stateful, SlowFlush: true}, {Kind: wire.Stateful, JSON: true, SlowFlush: true},
 			{Kind: wire.Stateless}, {Kind: wire.Stateless, JSON: true},
 		}).Draw(rt, "link")
 	} else {
